@@ -159,6 +159,41 @@ func c17EndToEnd(c *vk.Ctx) {
 			}
 			urig.Close(5 * time.Second)
 		}
+		// 5. UDP: an association that is still open when its listener shuts down (a reload that drops
+		// the port) ends there: no tunnel time after the shutdown
+		if ok {
+			urig := StartUDPRig(keys, UDPRigOpts{NatTimeout: 30 * time.Second, Tee: sm})
+			tgt, err1 := NewUDPEnd(net.IPv4(45, 78, 0, 2).To4(), 0)
+			ce, err2 := NewUDPEnd(net.IPv4(198, 51, 100, byte(170+round%50)).To4(), 0)
+			closed := false
+			if err1 == nil && err2 == nil {
+				k2 := keys[1]
+				ce.Send(ssUDP(k2, randBytes(r, k2.Codec().C.SaltSize), sscodec.AddrIP(tgt.Addr.IP, tgt.Addr.Port, false), []byte("y")), urig.Addr4())
+				if tgt.WaitCount(1, 3*time.Second) {
+					clk.Advance(15 * time.Second)
+					want[k2.ID] += 15
+					ok = expect("UDP association open for 15 s", want)
+					urig.Close(5 * time.Second)
+					closed = true
+					// the handler has returned; its associations are being torn down (bounded wait for the report)
+					for i := 0; i < 1000; i++ {
+						as := urig.Rec.ByClient(ce.Addr.String())
+						if len(as) > 0 && len(as[0].Snap().Removed) > 0 {
+							break
+						}
+						time.Sleep(10 * time.Millisecond)
+					}
+					clk.Advance(300 * time.Second)
+					ok = ok && expect("listener shut down with the association open, +300 s", want)
+					c.Count("e2e_udp_shutdown_cases", 1)
+				}
+				tgt.Close()
+				ce.Close()
+			}
+			if !closed {
+				urig.Close(5 * time.Second)
+			}
+		}
 		c.Eval(fmt.Sprintf("e2e|raw=%v|%s", round%2 == 0, k.Cipher))
 		if !ok {
 			return
